@@ -31,16 +31,34 @@ FromBag(w, oc, dis, oo) == last' = [op |-> "bag", z |-> cur, w |-> w, oc |-> oc,
 Vias == {"direct", "now", "instant", "rezone", "string"}
 View(t, via) == last' = [op |-> "views", z |-> cur, t |-> t, via |-> via,
                          out |-> IF via = "string" THEN (LET r == StringTrip(cur, t) IN IF r.kind = "ok" THEN Ok(Views(cur, r.val)) ELSE r) ELSE Ok(Views(cur, t))] /\ UNCHANGED cur
+\* toString with smallestUnit and a rounding mode, of the zoned date-time and of the instant shown in the zone
+Text(t, fd, unit, mode, via) == last' = [op |-> "text", z |-> cur, t |-> t, fd |-> fd, unit |-> unit, mode |-> mode, via |-> via,
+                                        out |-> Ok(RoundedText(cur, t, fd, unit, mode))] /\ UNCHANGED cur
+TextModes == {"trunc", "ceil", "halfExpand", "floor", "halfTrunc"}
+\* instants one second / a fraction of a second before every transition, and the grid
+TextInstants(z) == Instants \cup {z.trans[i].at - 1 : i \in 1..NT(z)} \cup {z.trans[i].at - 20 : i \in 1..NT(z)}
 Next == /\ (OneStep => last = None)
         /\ \/ \E w \in Walls, dis \in Diss : FromLocal(w, dis)
            \/ \E t \in Instants : ToWall(t)
            \/ \E t \in Instants, via \in Vias : View(t, via)
+           \/ \E t \in TextInstants(cur), fd \in {0, 4, 5, 6}, unit \in {1, 60}, mode \in TextModes, via \in {"zoned", "instant"} : Text(t, fd, unit, mode, via)
            \/ \E w \in IWalls, dis \in {"compatible", "reject"}, oo \in OffOpts : \E oc \in OffCands(cur, w) : FromString(w, oc, dis, oo)
            \/ \E w \in IWalls, dis \in {"compatible", "later"}, oo \in OffOpts : \E oc \in BagCands(cur, w) : FromBag(w, oc, dis, oo)
            \/ \E w \in IWalls : \E oc \in OffCands(cur, w) : RelTo(w, oc)
            \/ \E day \in {-1, 0, 1, 2}, tt \in {"none", "midnight"} : FromDate(day, tt)
 Spec == Init /\ [][Next]_vars
+\* the text steps alone (C11: what is printed is the rounded value as its zone reads it)
+NextText == /\ (OneStep => last = None)
+            /\ \E t \in TextInstants(cur), fd \in {0, 4, 5, 6}, unit \in {1, 60}, mode \in TextModes, via \in {"zoned", "instant"} : Text(t, fd, unit, mode, via)
+SpecText == Init /\ [][NextText]_vars
 
+\* the text of a rounded value is a reading of its own zone: the wall reading minus an offset of the zone (up to the minute rounding) never
+\* moves the instant by more than the rounding unit
+TextLaw == last.op = "text" /\ (\A o \in AllOffsets(last.z) : o % 60 = 0) =>
+  \E oo \in AllOffsets(last.z) : /\ RoundToMinute(oo) = last.out.val.off
+                                  /\ LET r == last.out.val.w - oo IN /\ r - last.t \in (-last.unit)..last.unit /\ r % last.unit = 0
+                                                                     /\ (last.mode \in {"trunc", "floor"} => r <= last.t) /\ (last.mode = "ceil" => r >= last.t)
+                                                                     /\ OffsetAt(last.z, r) = oo
 \* every candidate maps back to the reading
 MapsBack == last.op = "fromLocal" => \A i \in 1..Len(Possible(last.z, last.w)) : Wall(last.z, Possible(last.z, last.w)[i]) = last.w
 \* unique / repeated / skipped, as the property states it (on READINGS, never on instants)
